@@ -2,9 +2,9 @@ from props.common import *
 PROP = {
     "module": "Uec.Props.C16",
     "model_modules": ["Uec.Model.Rand", "Uec.Lemmas.PushFrame"],
-    "families": ["push-det", "sel", "wsel", "lex", "xo", "mut"],
+    "families": ["push-det", "sel", "wsel", "lex", "xo", "mut", "ops", "gen"],
     # in the shared stochastic families only the determinism / generator-state findings are C16's own
-    "violation_filter": r"equal generator states|C16|declaration order|second run",
+    "violation_filter": r"equal generator states|C16|declaration order|second run|second clone|re-run|determinis",
     "trusted_base": [KERNEL, AXIOMS, TIE, RUST, RAND, HAND,
                      "every stochastic operation is modelled as a Rand tree (free monad of primitive requests): by construction a model has no other access to randomness; that the REAL code has none is established only by the tie"],
     "assumptions": ["absence of ambient influences other than the generator (time, addresses, thread-local rand::rng(), HashMap order) cannot be a theorem about the code; it is what the repeated differential runs sample: every stochastic case is run twice from cloned generator states (results and final generator states must coincide) and the real generator must end in the same state as the shadow generator that answered exactly the model's requests",
